@@ -47,7 +47,7 @@ _setup_env()
 import numpy as np  # noqa: E402
 
 from pbv.core import (  # noqa: E402
-    Borderline, Ctx, HypothesisDraw, Rejected, ReplayDraw, Violation,
+    GENERATOR_EPOCH, Borderline, Ctx, HypothesisDraw, Rejected, ReplayDraw, Violation,
     digest_choices, jsonable,
 )
 
@@ -383,6 +383,7 @@ def write_replay(pid, sc, sig, choices, ctx, info, extra, directory='replay'):
         'detail': info.detail if info is not None else None,
         'case': ctx.desc if ctx is not None else None,
         'choices': choices,
+        'epoch': GENERATOR_EPOCH,
         'how_to_replay': f'./check {pid} --replay {os.path.relpath(base + ".json", ROOT)}',
     }
     doc.update(extra or {})
@@ -414,7 +415,7 @@ def do_replay(pid, path):
             return 1
         print('no violation reproduced on this tree')
         return 0
-    d = ReplayDraw(doc['choices'])
+    d = ReplayDraw(doc['choices'], epoch=doc.get('epoch', 1))
     outcome, ctx, info = execute(sc, d)
     print(f'replay {path}: subcheck={sc.name} outcome={outcome}')
     if ctx.desc:
@@ -530,7 +531,7 @@ def main(argv=None):
             scs = [s for s in mod.SUBCHECKS if s.name == doc['subcheck']]
             if not scs or (args.only and scs[0].name not in args.only):
                 continue
-            d = ReplayDraw(doc['choices'])
+            d = ReplayDraw(doc['choices'], epoch=doc.get('epoch', 1))
             outcome, ctx, info = execute(scs[0], d)
             regress_run += 1
             merged.account(scs[0], outcome, ctx, info, d.choices, False)
